@@ -8,7 +8,7 @@ RULE = ("filters: insertion sequences over the 18 filter kinds x 3 groups (quick
         "random sequences up to 8; thorough: exhaustive up to 3 insertions by kind/group with sampled arguments) x all regions; the "
         "request bytes the implementation sent are parsed by the reference grammar and compared with the denotation computed "
         "independently (last filter of a kind wins, per group). paging: page histories of 1-6 pages x 0-230 entries with the "
-        "terminator at any page/position; result, seeds and request count compared with the reference. Ill-formed histories "
+        "terminator at any page/position, or a last page that ends on its own seed instead of the terminator; result, seeds and request count compared with the reference. Ill-formed histories "
         "run for correspondence. Non-trivial = a delivery received.")
 ASSUMPTIONS = ["filter string values contain no backslash / NUL, tags no comma (the grammar's domain)"]
 TRUSTED = ["reference grammar reader (GdVerif/Spec/Master.lean, mirrored in harness/src/master.rs for canonical printing)",
@@ -65,6 +65,7 @@ def entry(ip, port):
 def paging_case(cid, rnd, wellformed=True):
     npages = rnd.choice([1, 1, 2, 3, 4, 6])
     pages, listed, seeds = [], [], ["0.0.0.0:0"]
+    pages_entries = []
     used = set()
     for p in range(npages):
         last = p == npages - 1
@@ -79,10 +80,17 @@ def paging_case(cid, rnd, wellformed=True):
                     break
             es.append((ip, port))
         listed += es
+        pages_entries.append(es)
         body = b"".join(entry(ip, port) for ip, port in es)
         if last:
             if n == 0 and rnd.random() < 0.5:
                 pass  # empty final page
+            elif p > 0 and wellformed and rnd.random() < 0.15:
+                # the server has nothing newer: the page ends on the address the request was seeded with instead of
+                # the terminator; the client stops there, and the page's entries are part of the list like any other
+                prev = pages_entries[-2][-1]
+                listed.append(prev)
+                body += entry(*prev)
             else:
                 body += entry((0, 0, 0, 0), 0)
         else:
